@@ -10,6 +10,7 @@ import (
 	"errors"
 	"fmt"
 	"io"
+	"os"
 	"strings"
 
 	"github.com/theQRL/go-qrllib/common"
@@ -110,7 +111,13 @@ func rebuildAll(c *drv.Ctx, i int64, k *xmss.XMSS, signIdx []uint32) {
 	xmssSame(c, i, "hexseed", k, k3, signIdx)
 }
 
+func mnemonicToES(mn string) [51]byte { return misc.MnemonicToExtendedSeedBin(mn) }
+
 func main() {
+	if s := os.Getenv("VERIF_C09_TALL"); s != "" {
+		tallChild(s)
+		return
+	}
 	ck := &drv.Check{Property: "C09", Level: "model_checking",
 		Rule: "bounded exhaustive enumeration: XMSS constructors x (height, hash) x seed alphabet (real hashes h=4,6,8; symbolic Merkle mode every even h up to 16 / 22), rebuilt via extended seed, mnemonic and hex seed: same public key, address, exported secrets, full internal state and signatures at indices {0,1,last}; " +
 			"all 48 (hash x address-format nibble) descriptors at h=4; Dilithium seed alphabet x {FromSeed, FromHexSeed, FromMnemonic}; crypto/rand.Reader scripted over chunkings {1,7,48,100} x contents x {no error, error at call 1, error at call 2} for New() and NewXMSSFromHeight. " +
@@ -398,5 +405,6 @@ func main() {
 				}
 			}
 		}})
+	extraDomains(ck)
 	drv.Main(ck)
 }
